@@ -63,6 +63,16 @@ def real_load(proto: str, line: str) -> dict:
         again = msg_result(_schema(proto).load(line))
         if again != res:
             return {"k": "other", "cls": "second decode of the same line differs: " + json.dumps(again)[:120]}
+        # ... and an edited decoded message encodes like a new message with the same field values
+
+        def enc(m):
+            try:
+                return sch.dump(m)
+            except ValidationError:
+                return "<invalid>"
+        fresh = Message(first.node_id, first.child_id, first.command, first.ack, first.message_type, first.payload)
+        if enc(first) != enc(fresh):
+            return {"k": "other", "cls": "an edited decoded message encodes as " + repr(enc(first))[:80] + " not " + repr(enc(fresh))[:80]}
         return res
     except ValidationError:
         return {"k": "invalid"}
